@@ -84,6 +84,10 @@ TRUSTED = [
     "as the matching mortar cell -> primary face / secondary cell (the harness asserts they are one-to-one 0/1 maps, as on every matching grid; non-matching "
     "mortar grids are not covered; the projections themselves belong to C26); np.sign / np.abs / sps.diags glue; the md explicit step is composed in the "
     "harness from the real Upwind matrices and the real coupling blocks cc[0,2], cc[1,2], cc[2,0], cc[2,1] (eta eliminated through cc[2,2] = -I)",
+    "readers of the stored discretization (assemble_matrix_rhs of Upwind and UpwindCoupling, called repeatedly, and a transport loop re-assembling in every "
+    "step) are checked by the oracle (stored matrices bit-identical to the snapshot taken after discretize; repeated assembles identical; loop = composed "
+    "steps); the correspondence sees them through the matrices as stored AFTER the readers ran and through the first (A, rhs), which the model computes "
+    "(assembleTrip / assembleRhs: A = div diag(flux) U, rhs = div (N + D diag(flux)) bc in the code's sign convention)",
     "a one-face 'grid' (np.squeeze in discretize returns a 0-d array -> IndexError) is not a grid of any dimension >= 1 and is not generated; "
     "0-d grids take the trivial shortcut branch of discretize and are not modelled",
 ]
@@ -634,14 +638,52 @@ def _run_history(case):
             res.append((st, ("err", e)))
             continue
         m = data[pp.DISCRETIZATION_MATRICES]["transport"]
-        mats = tuple(m[key].copy() for key in (up.upwind_matrix_key, up.bound_transport_dir_matrix_key, up.bound_transport_neu_matrix_key))
+        keys = (up.upwind_matrix_key, up.bound_transport_dir_matrix_key, up.bound_transport_neu_matrix_key)
+        mats = tuple(m[key].copy() for key in keys)  # snapshot of the stored discretization right after discretize
+        extra = {"stored_changed": None, "asm_repeat": None, "asm_steps": None}
+
+        def stored_same(label):
+            for key, snap in zip(keys, mats):
+                if extra["stored_changed"] is None and not _same_sparse(m[key], snap):
+                    extra["stored_changed"] = f"stored '{key}' matrix differs from its snapshot taken right after discretize, after {label}"
+
+        # the readers of the stored discretization: discretize once, assemble several times (legacy time loops do exactly this)
+        asm = None
         try:
-            A, rhs = up.assemble_matrix_rhs(g, data)
-            asm = {"A": _trip(A), "rhs": [frac(v) for v in np.asarray(rhs).ravel()]}
+            for rep in range(3):
+                A, rhs = up.assemble_matrix_rhs(g, data)
+                cur = {"A": _trip(A), "rhs": [frac(v) for v in np.asarray(rhs).ravel()]}
+                stored_same(f"assemble_matrix_rhs call {rep + 1}")
+                if asm is None:
+                    asm = cur
+                elif cur != asm and extra["asm_repeat"] is None:
+                    extra["asm_repeat"] = f"assemble_matrix_rhs call {rep + 1} on an unchanged data dictionary returned a different (A, rhs) than call 1"
+            # an explicit transport loop that re-assembles in every step: c <- c - dt/V (A c + rhs)   [= div(face flux), see _steps]
+            x = [Fraction(v) for v in st["c"][0]]
+            V = [Fraction(v) for v in st["V"]]
+            dt = Fraction(st["dt"])
+            steps = []
+            for _ in range(max(3, st["nsteps"])):
+                A, rhs = up.assemble_matrix_rhs(g, data)
+                Ax = _matvec(_rows(A), x)
+                rr = [Fraction(float(v)) for v in np.asarray(rhs).ravel()]
+                x = [x[i] - dt / V[i] * (Ax[i] + rr[i]) for i in range(len(x))]
+                steps.append(x)
+            stored_same("a transport loop calling assemble_matrix_rhs in every step")
+            extra["asm_steps"] = steps
         except Exception as e:
-            asm = err_kind(e)
-        res.append((st, ("ok", mats, asm)))
+            if asm is None:
+                asm = err_kind(e)
+        extra["mats_after"] = tuple(m[key].copy() for key in keys)
+        res.append((st, ("ok", mats, asm, extra)))
     return g, res
+
+
+def _same_sparse(a, b):
+    """bit-identical stored sparse matrices (shape, dtype, structure, data)"""
+    a, b = sps.csr_matrix(a), sps.csr_matrix(b)
+    return (a.shape == b.shape and a.dtype == b.dtype and np.array_equal(a.indptr, b.indptr) and np.array_equal(a.indices, b.indices)
+            and np.array_equal(a.data, b.data))
 
 
 def impl_run(case):
@@ -655,7 +697,7 @@ def impl_run(case):
         if r[0] == "err":
             outs.append(err_kind(r[1]))
             continue
-        mats = r[1]
+        mats = r[3]["mats_after"]  # as stored after the readers (assemble_matrix_rhs ...) ran: they must not have touched them
         outs.append({
             "shapes": [list(map(int, x.shape)) for x in mats],
             "upwind": _trip(mats[0]),
@@ -797,6 +839,13 @@ def oracle(case):
                     if a.shape != b.shape or _trip(a) != _trip(b):
                         return {"what": f"{tag}: stored {name} matrix differs from a fresh discretisation of the current inputs (stale discretisation)",
                                 "key": "history-stale-matrices"}
+        if r[0] == "ok" and len(r) > 3:
+            ex = r[3]
+            pre = f"call {n + 1}: " if n > 0 else ""
+            if ex["stored_changed"]:
+                return {"what": pre + ex["stored_changed"] + " (the stored upwind matrix must keep selecting the upstream cell with weight 1)", "key": "reader-modifies-stored-discretization"}
+            if ex["asm_repeat"]:
+                return {"what": pre + ex["asm_repeat"], "key": "assemble-not-repeatable"}
         o = _oracle_stage(g, st, r)
         if o is not None:
             if n > 0:
@@ -883,6 +932,12 @@ def _oracle_stage(g, case, r):
             return {"what": f"{ctx}: bound_transport_dir entry {d} on a non-Dirichlet face", "key": "dir-on-other-face"}
     # explicit steps built from the real matrices
     xs = _steps(g, mats, case)
+    if len(r) > 3 and k == 1 and r[3].get("asm_steps") is not None:
+        xa = r[3]["asm_steps"]
+        if xa[:len(xs)] != xs[:len(xa)]:
+            return {"what": f"({gk} grid, nf={nf}, nc={nc}) a transport loop that discretizes once and calls assemble_matrix_rhs in every step (c - dt/V (A c + rhs)) "
+                            f"differs from the step composed from the stored matrices, first at step {[a == b for a, b in zip(xa, xs)].index(False) + 1}", "key": "assemble-loop-differs"}
+        xs = xa if len(xa) >= len(xs) else xs  # >= 3 steps reusing one discretization: conservation / bounds are checked on these
     V = [Fraction(v) for v in case["V"]]
     dt = Fraction(case["dt"])
     bv = [[Fraction(x) for x in row] for row in case["bv"]]
@@ -1088,7 +1143,17 @@ def _md_run(case):
         up = pp.Upwind(kw)
         up.discretize(sd, data)
         m = data[pp.DISCRETIZATION_MATRICES][kw]
-        out["sub"].append({"bc": bc, "mats": (m[up.upwind_matrix_key], m[up.bound_transport_dir_matrix_key], m[up.bound_transport_neu_matrix_key])})
+        keys = (up.upwind_matrix_key, up.bound_transport_dir_matrix_key, up.bound_transport_neu_matrix_key)
+        snap = [m[key].copy() for key in keys]
+        reader = None
+        if sd.dim > 0:
+            a1 = up.assemble_matrix_rhs(sd, data)
+            a2 = up.assemble_matrix_rhs(sd, data)
+            if _trip(a1[0]) != _trip(a2[0]) or not np.array_equal(a1[1], a2[1]):
+                reader = "a second Upwind.assemble_matrix_rhs on unchanged data returned a different (A, rhs)"
+            if not all(_same_sparse(m[key], sn) for key, sn in zip(keys, snap)):
+                reader = "Upwind.assemble_matrix_rhs changed the stored discretization matrices"
+        out["sub"].append({"bc": bc, "mats": tuple(m[key] for key in keys), "reader": reader})
     for it, lam in zip(intfs, case["lam"]):
         intf, h, l = it["intf"], sds[it["h"]], sds[it["l"]]
         d = {pp.PARAMETERS: {kw: {"darcy_flux": np.array([float(Fraction(x)) for x in lam])}}, pp.DISCRETIZATION_MATRICES: {kw: {}}}
@@ -1103,9 +1168,19 @@ def _md_run(case):
             d[pp.DISCRETIZATION_MATRICES][kw].clear()
         uc.discretize(h, l, intf, {}, {}, d)
         rec["disc"] = dict(d[pp.DISCRETIZATION_MATRICES][kw])
+        snap = {key: sps.csr_matrix(v).copy() for key, v in rec["disc"].items()}
         sizes = (h.num_cells, l.num_cells, intf.num_cells)
         matrix = np.array([[sps.coo_matrix((a, b)) for b in sizes] for a in sizes], dtype=object)
         M, rhs = uc.assemble_matrix_rhs(h, l, intf, {}, {}, d, matrix)
+        # the coupling assembly is a reader of the stored discretization: a second call gives the same blocks and leaves it untouched
+        matrix2 = np.array([[sps.coo_matrix((a, b)) for b in sizes] for a in sizes], dtype=object)
+        M2, _ = uc.assemble_matrix_rhs(h, l, intf, {}, {}, d, matrix2)
+        rec["reader"] = None
+        if any(_trip(M[i, j]) != _trip(M2[i, j]) for i in range(3) for j in range(3)):
+            rec["reader"] = "a second UpwindCoupling.assemble_matrix_rhs on unchanged data returned different blocks"
+        for key, v in d[pp.DISCRETIZATION_MATRICES][kw].items():
+            if not _same_sparse(v, snap[key]):
+                rec["reader"] = f"UpwindCoupling.assemble_matrix_rhs changed the stored '{key}' matrix"
         rec["cc"] = M
         rec["rhs_zero"] = all(not np.any(np.asarray(r)) for r in rhs)
         out["intf"].append(rec)
@@ -1255,6 +1330,12 @@ def _md_oracle(case):
     except Exception as e:
         return {"what": f"md case raised {type(e).__name__}: {e}", "key": f"md-raises-{type(e).__name__}"}
     coff = info["coff"]
+    for s, r in enumerate(real["sub"]):
+        if r["reader"]:
+            return {"what": f"subdomain {s} of the md-grid: " + r["reader"], "key": "reader-modifies-stored-discretization"}
+    for n, rec in enumerate(real["intf"]):
+        if rec["reader"]:
+            return {"what": f"interface {n}: " + rec["reader"], "key": "coupling-reader-modifies-stored-discretization"}
     # the single-grid property on every subdomain of the md-grid
     for s, (sd, sp, r) in enumerate(zip(sds, case["sub"], real["sub"])):
         if sd.dim == 0:
